@@ -26,3 +26,9 @@ pub fn yield_point(name: &'static str) {
 		f(name)
 	}
 }
+
+/// Queue limits used instead of the production ones (16 MiB of queued commits, 128 MiB of logged
+/// and not yet applied records) in verification builds: the throttling paths become reachable with
+/// transactions of a few hundred KiB.
+pub const MAX_COMMIT_QUEUE_BYTES: usize = 128 * 1024;
+pub const MAX_LOG_QUEUE_BYTES: i64 = 1024 * 1024;
